@@ -114,7 +114,7 @@ def validate_traces(R, trace_files):
         if r.ok:
             out.append((f, True, None, r))
         else:
-            m = re.search(r'"REJECTED at line", (\d+)', r.out)
+            m = re.search(r'"REJECTED at line",\s*(\d+)', r.out)
             out.append((f, False, int(m.group(1)) if m else -1, r))
     return out
 
